@@ -2,7 +2,7 @@
 
 refarg   {"r": refid} pooled Col object | {"c": name} C.name | {"o": name} t[name] of the verb's table
          | {"ro": name} right[name] (join only)
-expr     {"e": "ref"|"tag"|"agg"|"shift"|"rown"|"case"|"add"|"lit"|"pool", ...}
+expr     {"e": "ref"|"tag"|"agg"|"shift"|"rown"|"case"|"wcase"|"add"|"lit"|"pool", ...}
 pred     {"p": "cmp"|"isnull"|"eq"|"eqx"|"ineq"|"and"|"true", ...}
 order    {"a": refarg, "desc": bool, "nulls": "first"|"last"|None}
 """
@@ -99,7 +99,7 @@ def expr_ftype(rec, exprs: dict) -> str:
         return expr_ftype(exprs[rec["x"]], exprs)
     if e == "agg":
         return "agg"
-    if e in ("shift", "rown"):
+    if e in ("shift", "rown", "wcase"):
         return "win"
     if e == "case":
         k = {expr_ftype(rec["a"], exprs), expr_ftype(rec["b"], exprs)}
@@ -139,6 +139,10 @@ def expr_tok(rec, cx: MCtx, new_id: str, *, in_summarize: bool = False) -> Tok:
                 new_id, offs=tuple(sorted(set(ta.offs) | set(tb.offs))), lineage=lin, nullable=ta.nullable or tb.nullable
             )
         return Tok(new_id, "opaque", nullable=True)
+    if e == "wcase":
+        # a case expression with constant branches whose CONDITION holds a window / aggregate function
+        expr_tok(rec["w"], cx, new_id, in_summarize=in_summarize)
+        return Tok(new_id, "opaque")
     if e == "arith":
         # opaque arithmetic wrapper around a sub-expression (keeps its function type)
         expr_tok(rec["a"], cx, new_id, in_summarize=in_summarize)
@@ -274,6 +278,8 @@ def real_expr(rec, rx: RCtx):
         return pdt.row_number(**_ctx_kwargs(rec, rx))
     if e == "case":
         return pdt.when(real_pred(rec["p"], rx)).then(real_expr(rec["a"], rx)).otherwise(real_expr(rec["b"], rx))
+    if e == "wcase":
+        return pdt.when(real_expr(rec["w"], rx) > rec["thr"]).then(1).otherwise(0)
     raise AssertionError(rec)
 
 
